@@ -2,6 +2,7 @@
 """C19 on the implementation: valid Swagger 2.0 documents (validated with python jsonschema against the
 meta-schema shipped in /repo) must stay valid after decode/encode and after a successful expansion.
 Writes an oracleResult JSON (same shape as the Go harness oracles)."""
+import re
 import argparse, json, os, subprocess, sys, tempfile
 import jsonschema
 
@@ -123,7 +124,10 @@ def refs_well_founded(doc):
             r = x.get("$ref")
             if isinstance(r, str):
                 sect = {"schema": "#/definitions/", "parameter": "#/parameters/", "response": "#/responses/"}.get(where)
-                if sect is None or not r.startswith(sect) or not isinstance(target(r), dict) or "$ref" in target(r):
+                fits = sect is not None and r.startswith(sect)
+                if where == "schema" and re.match(r"^#/(responses|parameters)/[^/]+/schema$", r):
+                    fits = True    # the schema OF a shared response or body parameter is a schema too
+                if not fits or not isinstance(target(r), dict) or "$ref" in target(r):
                     ok = False
             for k, v in x.items():
                 if k.startswith("x-") or k in ("default", "example", "examples", "enum"):
@@ -164,10 +168,13 @@ def with_refs(doc, rng):
                               lambda: {"allOf": [{"$ref": "#/definitions/" + tgt()}, {"type": "object"}]},
                               # a schema may also be named by a longer pointer: the schema OF a shared response or parameter,
                               # a property of a definition
-                              lambda: {"$ref": rng.choice(["#/responses/Rec/schema", "#/parameters/BodyRec/schema",
+                              lambda: {"$ref": rng.choice(["#/responses/Deep/schema", "#/parameters/BodyDeep/schema",
                                                            "#/definitions/Tagged/properties/a", "#/definitions/Node/properties/v"])},
-                              lambda: {"type": "array", "items": {"$ref": rng.choice(["#/responses/Rec/schema", "#/parameters/BodyRec/schema"])}}])()
+                              lambda: {"type": "array", "items": {"$ref": rng.choice(["#/responses/Deep/schema", "#/parameters/BodyDeep/schema"])}}])()
     pars = d.setdefault("parameters", {})
+    deep = lambda: {"type": "object", "properties": {"n": {"$ref": "#/definitions/" + rng.choice(["Node", "Leaf"])}, "s": {"type": "string"}}}
+    pars["BodyDeep"] = {"in": "body", "name": "deep", "schema": deep()}
+    d.setdefault("responses", {})["Deep"] = {"description": "deep", "schema": deep(), "headers": {"X-Rate": {"type": "integer"}}}
     pars["BodyRec"] = {"in": "body", "name": "body", "schema": {"$ref": "#/definitions/" + rng.choice(["Node", "Ping"])}}
     pars["BodyAny"] = {"in": "body", "name": "payload", "schema": sch()}
     pars["Q"] = {"in": "query", "name": "q", "type": "string"}
